@@ -67,6 +67,10 @@ CHECKS = {
    text="Held on the generated three-segment histories (before checkpoint / between checkpoint and restore with flushes and compactions and cache-warming reads / after restore with commits, flush, compaction, reopen) x option sets counted in the evidence. One open known finding (version index neither checkpointed nor restored) is reported as KNOWN-FINDING and masked: these histories do not enable the version index.",
    note="Trusted: reference model. Single driver thread, so no commit is in flight at the checkpoint, as the property requires."),
 }
+CHECKS["C18"] = dict(level="exploration", engine="component monitor (public B+tree API + H7 census)", ref="DESIGN.md 3/C18",
+   technique="runtime differential monitor: generated operation sequences on the real BPlusTree next to a vector kept sorted by the same comparator; close/reopen at arbitrary points; page census at quiescent points",
+   text="Held on the generated sequences (grow / shrink / churn phases over skewed key universes of 12..2000 keys, keys of 1 byte .. 5 KB, values of 0 .. 30 KB, both the bytewise and the timestamp key order) counted in the evidence: every insert / overwrite / delete / get / bounded range scan / internal-iterator seek+steps result equals the ordered map; after close + reopen too; at every census no page is reachable twice, outside the file or unaccounted for, the header's free count equals the pages listed in trunk pages, and the leaf chain equals the left-to-right leaf order. Sequences are sampled, not enumerated.",
+   note="Trusted: the Comparator objects (shared between tree and model), H7 census walk. Crash consistency of the tree file is not part of this property.")
 order = ["C01","C02","C03","C04","C05","C06","C07","C08","C09","C10","C11","C12","C13","C14","C15","C16","C17","C18","C19"]
 checks=[]
 for pid in order:
